@@ -19,3 +19,51 @@ def sl_os(doc: "Node", f: int, t: int) -> int:
 @abstract
 def sl_oe(doc: "Node", f: int, t: int) -> int:
     return doc.slice(f, t).open_end
+
+
+def bidx(c: "list[Node]", pos: int, k: int) -> int:
+    """index Fragment.find_index reports for pos (rounding toward the start): the child that holds the
+    position, or the boundary index when the position is exactly at a child boundary"""
+    if k < 0 or k >= len(c):
+        return len(c)
+    if pre(c, k + 1) > pos:
+        return k
+    if pre(c, k + 1) == pos:
+        return k + 1
+    return bidx(c, pos, k + 1)
+
+
+def ins_deeper(c: "list[Node]", dist: int, ins: "list[Node]", os_: int, oe: int) -> bool:
+    """the gap content lands inside the child that holds dist: a child on an open side of the slice is
+    still incomplete and is not checked; a closed child is checked against its own type"""
+    if bidx(c, dist, 0) >= len(c):
+        return False
+    if (bidx(c, dist, 0) == 0 and os_ > 0) or (bidx(c, dist, 0) == len(c) - 1 and oe > 0):
+        return ins_nochk(
+            c[bidx(c, dist, 0)].content.content,
+            dist - pre(c, bidx(c, dist, 0)) - 1,
+            ins,
+            os_ - 1 if (bidx(c, dist, 0) == 0 and os_ > 0) else 0,
+            oe - 1 if (bidx(c, dist, 0) == len(c) - 1 and oe > 0) else 0,
+        )
+    return ins_chk(c[bidx(c, dist, 0)].content.content, dist - pre(c, bidx(c, dist, 0)) - 1, ins, c[bidx(c, dist, 0)].type, 0, 0)
+
+
+def at_boundary(c: "list[Node]", dist: int) -> bool:
+    """dist is a child boundary of c, or lies inside a text child"""
+    return pre(c, bidx(c, dist, 0)) == dist or (bidx(c, dist, 0) < len(c) and c[bidx(c, dist, 0)].type.is_text)
+
+
+def ins_chk(c: "list[Node]", dist: int, ins: "list[Node]", pt: "NodeType", os_: int, oe: int) -> bool:
+    """whether gap content `ins` may be dropped at offset dist of the children c of a *complete* node of
+    type pt: at a boundary the node must accept it there; otherwise it lands deeper"""
+    if at_boundary(c, dist):
+        return replace_ok(pt, c, bidx(c, dist, 0), bidx(c, dist, 0), ins, 0, len(ins))
+    return ins_deeper(c, dist, ins, os_, oe)
+
+
+def ins_nochk(c: "list[Node]", dist: int, ins: "list[Node]", os_: int, oe: int) -> bool:
+    """the same for the children of a node that is still incomplete (slice top level or open side)"""
+    if at_boundary(c, dist):
+        return True
+    return ins_deeper(c, dist, ins, os_, oe)
